@@ -117,6 +117,17 @@ func c09Configs() []c09cfg {
 			sp.ValidateEncryptionCert = true
 			return sp
 		}},
+		{"store-nil-key-with-cert", func(w *World) *saml2.SAMLServiceProvider {
+			// a key store that hands out its certificate but (an agent that lost its key, a half-initialised HSM) no key
+			sp, _, _ := NewSP(w.Now, w.IdP[0])
+			sp.SPKeyStore = rawKeyStore{nil, w.SPEnc.DER}
+			return sp
+		}},
+		{"tlsstore-nil-key-with-cert", func(w *World) *saml2.SAMLServiceProvider {
+			sp, _, _ := NewSP(w.Now, w.IdP[0])
+			sp.SPKeyStore = dsig.TLSCertKeyStore(tls.Certificate{Certificate: [][]byte{w.SPEnc.DER}})
+			return sp
+		}},
 		{"setter-nil-cert", func(w *World) *saml2.SAMLServiceProvider {
 			sp, _, _ := NewSP(w.Now, w.IdP[0])
 			sp.SetSPKeyStore(&saml2.KeyStore{Signer: w.SPEnc.Key.Signer})
